@@ -192,6 +192,9 @@ func addTenants(ss *scenarioSet, thorough bool) {
 	ss.add(Scenario{Name: "D8-two-keys", QB: 1, TB: 2, Signal: "traces", S: 2, Timeout: T, Early: true, Keys: []string{"B", "a"}, Limit: 2,
 		Callers: []CallerSpec{{Label: "A", Reqs: one("A", 1), Metadata: md("a", "x", "b", "y")}, {Label: "B", Reqs: one("B", 1), Metadata: md("a", "y", "b", "x")},
 			{Label: "C", Reqs: one("C", 1), Metadata: md("A", "x", "B", "y")}}})
+	// per-combination concurrency bound: two tenants, each request split into two exports, one permit per combination
+	ss.add(Scenario{Name: "D8-k1-two-tenants", QB: 1, TB: 2, Signal: "traces", S: 1, M: 1, Timeout: T, Keys: keys, Limit: 0, K: 1, NumCPU: 1,
+		Callers: []CallerSpec{{Label: "A", Reqs: one("A", 2), Metadata: md("tenant", "x")}, {Label: "B", Reqs: one("B", 1), Metadata: md("tenant", "y")}}})
 	// two first arrivals of one combination race, then a second combination arrives with two requests
 	// that are merged (the batch is exported with the shard's own metadata context)
 	ss.add(Scenario{Name: "D8-race-then-new", QB: 1, TB: 2, Signal: "traces", S: 2, Timeout: T, Early: true, Keys: keys, Limit: 0,
